@@ -162,7 +162,7 @@ func (w *bgvWorld) roundTrip(c *engine.Chooser, bc bgvCase, typed interface{}, w
 	}
 	err, pan := uni.Try(func() error { return w.ecd.Encode(typed, pt) })
 	if pan != nil || err != nil {
-		c.Fail(sig+"/encode-failed", "%v len=%d: Encode err=%v panic=%v", bc, len(want), err, pan)
+		failD(c, sig+"/encode-failed", "%v len=%d: Encode err=%v panic=%v", bc, len(want), err, pan)
 		return false
 	}
 	full := make([]uint64, n) // residues expected in every slot (zeros after len)
@@ -172,7 +172,7 @@ func (w *bgvWorld) roundTrip(c *engine.Chooser, bc bgvCase, typed interface{}, w
 	gotU := make([]uint64, n)
 	err, pan = uni.Try(func() error { return w.ecd.Decode(pt, gotU) })
 	if pan != nil || err != nil {
-		c.Fail(sig+"/decode-failed", "%v: Decode([]uint64) err=%v panic=%v", bc, err, pan)
+		failD(c, sig+"/decode-failed", "%v: Decode([]uint64) err=%v panic=%v", bc, err, pan)
 		return false
 	}
 	for j := range full {
@@ -181,7 +181,7 @@ func (w *bgvWorld) roundTrip(c *engine.Chooser, bc bgvCase, typed interface{}, w
 			if j >= len(want) {
 				what = "unspecified-slot-not-zero"
 			}
-			c.Fail(sig+"/"+what, "%v len=%d: slot %d decodes to %d, want %d (input %v)", bc, len(want), j, gotU[j], full[j], typed)
+			failD(c, sig+"/"+what, "%v len=%d: slot %d decodes to %d, want %d (input %v)", bc, len(want), j, gotU[j], full[j], typed)
 			return false
 		}
 	}
@@ -189,13 +189,13 @@ func (w *bgvWorld) roundTrip(c *engine.Chooser, bc bgvCase, typed interface{}, w
 	gotI := make([]int64, n)
 	err, pan = uni.Try(func() error { return w.ecd.Decode(pt, gotI) })
 	if pan != nil || err != nil {
-		c.Fail(sig+"/decode-failed", "%v: Decode([]int64) err=%v panic=%v", bc, err, pan)
+		failD(c, sig+"/decode-failed", "%v: Decode([]int64) err=%v panic=%v", bc, err, pan)
 		return false
 	}
 	lim := int64((t + 1) / 2)
 	for j := range full {
 		if bgvu.I64ToT(gotI[j], t) != full[j] || gotI[j] > lim || gotI[j] < -lim {
-			c.Fail(sig+"/signed-decode", "%v len=%d: slot %d decodes (signed) to %d, want a representative of %d mod %d within +-%d", bc, len(want), j, gotI[j], full[j], t, lim)
+			failD(c, sig+"/signed-decode", "%v len=%d: slot %d decodes (signed) to %d, want a representative of %d mod %d within +-%d", bc, len(want), j, gotI[j], full[j], t, lim)
 			return false
 		}
 	}
@@ -205,7 +205,7 @@ func (w *bgvWorld) roundTrip(c *engine.Chooser, bc bgvCase, typed interface{}, w
 	// the encoded polynomial itself, recovered without the decoder
 	m, off := w.plainCoeffs(pt)
 	if off {
-		c.Fail(sig+"/outside-subring", "%v len=%d: the encoded polynomial has non-zero coefficients outside Z_t[X^%d]", bc, len(want), w.gap)
+		failD(c, sig+"/outside-subring", "%v len=%d: the encoded polynomial has non-zero coefficients outside Z_t[X^%d]", bc, len(want), w.gap)
 		return false
 	}
 	for j := range full {
@@ -216,7 +216,7 @@ func (w *bgvWorld) roundTrip(c *engine.Chooser, bc bgvCase, typed interface{}, w
 			got = m[j]
 		}
 		if exp := ref.MulMod(full[j], bc.scale%t, t); got != exp {
-			c.Fail(sig+"/encoded-polynomial", "%v len=%d: slot/coefficient %d of the encoded polynomial is %d, want value*scale = %d", bc, len(want), j, got, exp)
+			failD(c, sig+"/encoded-polynomial", "%v len=%d: slot/coefficient %d of the encoded polynomial is %d, want value*scale = %d", bc, len(want), j, got, exp)
 			return false
 		}
 	}
@@ -250,7 +250,7 @@ func bgvStructureScenario(cf bgvu.Conf) engine.Scenario {
 		psi := w.roots[0]
 		c.Cover("bgv-gap", fmt.Sprint(w.gap))
 		if ref.PowMod(psi, uint64(n), t) != t-1 {
-			c.Fail("C07/bgv/slot-order", "slot 0 evaluates at %d which is not a primitive %d-th root of unity mod %d", psi, 2*n, t)
+			failD(c, "C07/bgv/slot-order", "slot 0 evaluates at %d which is not a primitive %d-th root of unity mod %d", psi, 2*n, t)
 			return
 		}
 		pow := uint64(1)
@@ -258,7 +258,7 @@ func bgvStructureScenario(cf bgvu.Conf) engine.Scenario {
 			r0 := ref.PowMod(psi, pow, t)
 			r1 := ref.InvMod(r0, t)
 			if w.roots[j] != r0 || w.roots[n/2+j] != r1 {
-				c.Fail("C07/bgv/slot-order", "slot (row 0/1, column %d) evaluates at %d/%d, documented orbit psi^(5^%d)=%d and its inverse %d", j, w.roots[j], w.roots[n/2+j], j, r0, r1)
+				failD(c, "C07/bgv/slot-order", "slot (row 0/1, column %d) evaluates at %d/%d, documented orbit psi^(5^%d)=%d and its inverse %d", j, w.roots[j], w.roots[n/2+j], j, r0, r1)
 				return
 			}
 			pow = pow * 5 % uint64(2*n)
@@ -438,7 +438,7 @@ func bgvShortDecodeScenario(cf bgvu.Conf) engine.Scenario {
 			return w.ecd.Decode(pt, o)
 		})
 		if pan != nil {
-			c.Fail(fmt.Sprintf("C07/bgv/%s/%s/decode-into-short-slice/panic", dom, ty), "Decode into a slice of %d < %d entries panicked: %v", outLen, n, pan)
+			failD(c, fmt.Sprintf("C07/bgv/%s/%s/decode-into-short-slice/panic", dom, ty), "Decode into a slice of %d < %d entries panicked: %v", outLen, n, pan)
 			return
 		}
 		if err != nil {
@@ -447,7 +447,7 @@ func bgvShortDecodeScenario(cf bgvu.Conf) engine.Scenario {
 		}
 		for j := range got {
 			if got[j] != v[j] {
-				c.Fail(fmt.Sprintf("C07/bgv/%s/%s/decode-into-short-slice/value", dom, ty), "slot %d decodes to %d, want %d", j, got[j], v[j])
+				failD(c, fmt.Sprintf("C07/bgv/%s/%s/decode-into-short-slice/value", dom, ty), "slot %d decodes to %d, want %d", j, got[j], v[j])
 				return
 			}
 		}
@@ -503,22 +503,22 @@ func bgvProductScenario(cf bgvu.Conf) engine.Scenario {
 			// route 1
 			pa, pb := ringT.NewPoly(), ringT.NewPoly()
 			if err := w.ecd.EncodeRingT(ta, p.NewScale(s1), pa); err != nil {
-				c.Fail("C07/bgv/EncodeRingT/error", "%v", err)
+				failD(c, "C07/bgv/EncodeRingT/error", "%v", err)
 				return
 			}
 			if err := w.ecd.EncodeRingT(tb, p.NewScale(s2), pb); err != nil {
-				c.Fail("C07/bgv/EncodeRingT/error", "%v", err)
+				failD(c, "C07/bgv/EncodeRingT/error", "%v", err)
 				return
 			}
 			prod := ringT.NewPoly()
 			copy(prod.Coeffs[0], ref.NegacyclicMul(pa.Coeffs[0], pb.Coeffs[0], t))
 			got := make([]uint64, n)
 			if err := w.ecd.DecodeRingT(prod, p.NewScale(ref.MulMod(s1%t, s2%t, t)), got); err != nil {
-				c.Fail("C07/bgv/DecodeRingT/error", "%v", err)
+				failD(c, "C07/bgv/DecodeRingT/error", "%v", err)
 				return
 			}
 			if !bgvu.VecEq(got, want) {
-				c.Fail("C07/bgv/product/ringT", "scales %d,%d: product of the two encodings over Z_t decodes to %v, want the slot-wise product %v", s1, s2, got, want)
+				failD(c, "C07/bgv/product/ringT", "scales %d,%d: product of the two encodings over Z_t decodes to %v, want the slot-wise product %v", s1, s2, got, want)
 				return
 			}
 			// route 2 (needs n*t^2 < Q/2 so that the integer product does not wrap)
@@ -532,13 +532,13 @@ func bgvProductScenario(cf bgvu.Conf) engine.Scenario {
 				md.IsNTT, md.IsBatched = true, true
 				md.Scale = p.NewScale(s1)
 				if err := w.ecd.Embed(ta, md, qa); err != nil {
-					c.Fail("C07/bgv/Embed/error", "%v", err)
+					failD(c, "C07/bgv/Embed/error", "%v", err)
 					return
 				}
 				md2 := *md
 				md2.Scale = p.NewScale(s2)
 				if err := w.ecd.Embed(tb, &md2, qb); err != nil {
-					c.Fail("C07/bgv/Embed/error", "%v", err)
+					failD(c, "C07/bgv/Embed/error", "%v", err)
 					return
 				}
 				rq.MulCoeffsBarrett(qa, qb, qa)
@@ -548,7 +548,7 @@ func bgvProductScenario(cf bgvu.Conf) engine.Scenario {
 				got2 := make([]uint64, n)
 				_ = w.ecd.DecodeRingT(pT, p.NewScale(ref.MulMod(s1%t, s2%t, t)), got2)
 				if !bgvu.VecEq(got2, want) {
-					c.Fail("C07/bgv/product/ringQ", "scales %d,%d: product of the two embeddings in R_Q decodes to %v, want %v", s1, s2, got2, want)
+					failD(c, "C07/bgv/product/ringQ", "scales %d,%d: product of the two embeddings in R_Q decodes to %v, want %v", s1, s2, got2, want)
 					return
 				}
 				c.Cover("bgv-product", "ringQ")
@@ -584,7 +584,7 @@ func bgvEmbedScenario(cf bgvu.Conf) engine.Scenario {
 		ringT := p.RingT()
 		pT := ringT.NewPoly()
 		if err := w.ecd.EncodeRingT(v, p.NewScale(s), pT); err != nil {
-			c.Fail("C07/bgv/EncodeRingT/error", "%v", err)
+			failD(c, "C07/bgv/EncodeRingT/error", "%v", err)
 			return
 		}
 		md := &rlwe.MetaData{}
@@ -609,7 +609,7 @@ func bgvEmbedScenario(cf bgvu.Conf) engine.Scenario {
 		c.Cover("bgv-embed", fmt.Sprintf("target=%d scaleUp=%v", target, scaleUp))
 		err, pan := uni.Try(func() error { return w.ecd.EmbedScale(v, scaleUp, md, out) })
 		if pan != nil || err != nil {
-			c.Fail("C07/bgv/EmbedScale/error", "level=%d ntt=%v mont=%v scaleUp=%v target=%d: err=%v panic=%v", level, ntt, mont, scaleUp, target, err, pan)
+			failD(c, "C07/bgv/EmbedScale/error", "level=%d ntt=%v mont=%v scaleUp=%v target=%d: err=%v panic=%v", level, ntt, mont, scaleUp, target, err, pan)
 			return
 		}
 		// expected integer polynomial: m_k at X^(k gap); with scaleUp multiplied by t^-1 mod Q_level
@@ -625,7 +625,7 @@ func bgvEmbedScenario(cf bgvu.Conf) engine.Scenario {
 				}
 			}
 			if got[j].Cmp(exp) != 0 {
-				c.Fail("C07/bgv/EmbedScale/Q-part", "level=%d ntt=%v mont=%v scaleUp=%v target=%d len=%d: coefficient %d of the Q part is %v, want %v", level, ntt, mont, scaleUp, target, ln, j, got[j], exp)
+				failD(c, "C07/bgv/EmbedScale/Q-part", "level=%d ntt=%v mont=%v scaleUp=%v target=%d len=%d: coefficient %d of the Q part is %v, want %v", level, ntt, mont, scaleUp, target, ln, j, got[j], exp)
 				return
 			}
 		}
@@ -639,7 +639,7 @@ func bgvEmbedScenario(cf bgvu.Conf) engine.Scenario {
 					exp.SetUint64(pT.Coeffs[0][j/w.gap])
 				}
 				if gotP[j].Cmp(exp) != 0 {
-					c.Fail("C07/bgv/Embed/P-part", "level=%d ntt=%v mont=%v len=%d: coefficient %d of the P part is %v, want %v", level, ntt, mont, ln, j, gotP[j], exp)
+					failD(c, "C07/bgv/Embed/P-part", "level=%d ntt=%v mont=%v len=%d: coefficient %d of the P part is %v, want %v", level, ntt, mont, ln, j, gotP[j], exp)
 					return
 				}
 			}
@@ -657,7 +657,7 @@ func bgvEmbedScenario(cf bgvu.Conf) engine.Scenario {
 					if new(big.Int).Lsh(new(big.Int).SetUint64(t), 1).Cmp(Q) > 0 {
 						sg = "C07/bgv/plaintext-modulus-above-half-Q-at-level/value"
 					}
-					c.Fail(sg, "level=%d scale flag=%v: coefficient %d comes back as %d, want %d", level, su, k, back.Coeffs[0][k], pT.Coeffs[0][k])
+					failD(c, sg, "level=%d scale flag=%v: coefficient %d comes back as %d, want %d", level, su, k, back.Coeffs[0][k], pT.Coeffs[0][k])
 					return
 				}
 			}
